@@ -282,7 +282,7 @@ func corruptFrame(t *rapid.T, m *simrt.Msg) wsFrame {
 	}
 	generic := []string{"binary", "invalid-utf8", "not-json", "unknown-label", "wrong-arity", "label-not-string", "trailing-garbage"}
 	evOnly := []string{"pubkey-off-curve", "sig-r-out-of-range", "uppercase-id", "uppercase-sig", "mixedcase-sig", "uppercase-pubkey", "short-id", "kind-negative", "kind-too-large", "kind-string", "altered-content", "altered-id", "altered-pubkey", "altered-sig", "forged-sig", "missing-sig", "tags-not-array", "extra-member"}
-	reqOnly := []string{"negative-since", "negative-limit", "unknown-filter-key", "filter-not-object", "subid-number", "ids-uppercase", "ids-unicode-digit", "authors-unicode-digit", "etag-unicode-digit", "kinds-string"}
+	reqOnly := []string{"negative-since", "negative-limit", "unknown-filter-key", "filter-not-object", "subid-number", "ids-uppercase", "ids-unicode-digit", "authors-unicode-digit", "etag-unicode-digit", "atag-no-d-part", "atag-kind-not-number", "atag-short-pubkey", "kinds-string"}
 	pool := append([]string{}, generic...)
 	switch m.T {
 	case "EVENT":
@@ -444,6 +444,14 @@ func corruptFrame(t *rapid.T, m *simrt.Msg) wsFrame {
 		default:
 			fm["#e"] = []string{v}
 		}
+		f.Payload = marshalNoEscape(w)
+	case "atag-no-d-part", "atag-kind-not-number", "atag-short-pubkey":
+		// addresses are kind:pubkey:d - the d part may be empty, the second colon
+		// may not be missing
+		w := msgWire(m)
+		fm := w[2].(map[string]any)
+		pk := ref.Authors[1].Pubkey
+		fm["#a"] = []string{map[string]string{"atag-no-d-part": "30000:" + pk, "atag-kind-not-number": "x:" + pk + ":d", "atag-short-pubkey": "30000:" + pk[:62] + ":d"}[f.Kind]}
 		f.Payload = marshalNoEscape(w)
 	case "kinds-string":
 		w := msgWire(m)
